@@ -129,7 +129,9 @@ def rand_mesh(rng, n, shape=None, max_extra=None):
 # service file
 # --------------------------------------------------------------------------------------------------------------------
 
-def req_json(rid, src, dst, inc=(), bidir=False, mode='mode 1', bandwidth=100e9):
+def req_json(rid, src, dst, inc=(), bidir=False, mode='mode 1', bandwidth=100e9, doc=None):
+    """doc = {'shuffle': seed, 'stride': k, 'offset': o}: the route objects carry the indices o, o+k, o+2k, ... (hop order
+    = numeric index order) and are WRITTEN in a shuffled order in the document"""
     r = {'request-id': str(rid), 'source': src, 'destination': dst, 'src-tp-id': src, 'dst-tp-id': dst,
          'bidirectional': bool(bidir),
          'path-constraints': {'te-bandwidth': {'technology': 'flexi-grid', 'trx_type': 'Voyager', 'trx_mode': mode,
@@ -141,13 +143,19 @@ def req_json(rid, src, dst, inc=(), bidir=False, mode='mode 1', bandwidth=100e9)
             {'explicit-route-usage': 'route-include-ero', 'index': i,
              'num-unnum-hop': {'node-id': uid, 'link-tp-id': 'link-tp-id is not used', 'hop-type': hop}}
             for i, (uid, hop) in enumerate(inc)]}
+        if doc:
+            import random
+            objs = r['explicit-route-objects']['route-object-include-exclude']
+            for i, o in enumerate(objs):
+                o['index'] = doc.get('offset', 0) + doc.get('stride', 1) * i
+            random.Random(doc.get('shuffle', 0)).shuffle(objs)
     return r
 
 
 def service_json(reqs, sync=()):
     """reqs: list of dicts {'id','src','dst','inc':[[uid,hop],...],'bidir'}; sync: list of lists of request ids"""
     d = {'path-request': [req_json(r['id'], r['src'], r['dst'], r.get('inc') or (), r.get('bidir', False),
-                                   r.get('mode', 'mode 1')) for r in reqs]}
+                                   r.get('mode', 'mode 1'), doc=r.get('doc')) for r in reqs]}
     if sync:
         d['synchronization'] = [{'synchronization-id': f's{k}',
                                  'svec': {'relaxable': False, 'disjointness': 'node link',
